@@ -239,7 +239,9 @@ std::string genTagField(vh::Rng& rng, bool clean) {
 std::string genReference(vh::Rng& rng, bool clean) {
   std::string out = "@{";
   if (rng.chance(3, 5)) {                       // entity
-    out += rng.chance(9, 10) ? rng.pick(kNames) : rng.pick(std::vector<std::string>{ "x", "Z\xC3\xA9", "a1|b" });
+    // blanks around the name (hand-typed references): `@{ X1|…}` is NOT an entity reference for the current code - the
+    // reading of such texts must not change silently (seeded change C08-4: the first field trimmed in one place only)
+    out += rng.chance(9, 10) ? rng.pick(kNames) : rng.pick(std::vector<std::string>{ "x", "Z\xC3\xA9", "a1|b", " X1", "X1 ", " X1 ", "\tD1", " ", "X 1" });
     const int style = rng.range(0, 9);
     const int n = rng.range(1, 3);
     if (style < 6) {                            // name|t1,t2
